@@ -71,11 +71,11 @@ type upstream struct {
 	// seg cuts TCP replies into segments (private to this upstream).
 	seg *rand.Rand
 
-	// seenGot is how much of got the harness has judged; cleanPrev is set
-	// when the last operation in which this upstream took part was one
-	// exchange answered with one good UDP reply (see judgeRetries).
-	seenGot   int
-	cleanPrev bool
+	// seenGot is how much of got the harness has judged; cleanStreak counts
+	// the latest operations in which this upstream took part that were one
+	// exchange answered with one good UDP reply each (see judgeRetries).
+	seenGot     int
+	cleanStreak int
 }
 
 func (u *upstream) String() string {
@@ -370,10 +370,14 @@ func (u *upstream) serve(n *simnet.Net) (stop func()) {
 // judgeRetries looks at what every upstream received during the operation
 // that has just ended (a query or a health-check round; an upstream takes part
 // in at most one exchange of it).  A message that came over UDP and over TCP
-// was retried.  When the upstream is up and was up in the operation before
-// (one message over UDP, one good reply), nothing is left over in the
-// resolver's sockets and nothing explains the retry: the good reply to this
-// message was taken for something else, or an earlier one for this.
+// was retried.  When the upstream is up and has been for the last maxBurst
+// operations it took part in (one message over UDP and one good reply each),
+// nothing is left over in the resolver's sockets and nothing explains the
+// retry: the good reply to this message was taken for something else, or an
+// earlier one for this.
+// maxBurst is the largest number of concurrent queries.
+const maxBurst = 4
+
 func judgeRetries(s *kernel.Sim, all []*upstream) (ok bool) {
 	for _, u := range all {
 		u.mu.Lock()
@@ -393,17 +397,23 @@ func judgeRetries(s *kernel.Sim, all []*upstream) (ok bool) {
 				tcp++
 			}
 		}
-		if state == "up" && u.cleanPrev && udp == 1 && tcp > 0 {
+		if state == "up" && u.cleanStreak >= maxBurst && udp == 1 && tcp > 0 {
 			s.Failf("C06/reply-taken-for-another", "an upstream's good reply was not taken as the answer to the message it answers (retry over TCP with nothing left over from earlier exchanges)",
-				"%s: %v although this and the previous exchange were each answered with one good UDP reply", u, news)
+				"%s: %v although this and the %d exchanges before were each answered with one good UDP reply", u, news, maxBurst)
 
 			return false
 		}
-		// After an exchange answered with one good UDP reply the resolver's
-		// sockets for this upstream hold nothing: either the reply was read
-		// from a clean socket, or something stale was read first, in which
-		// case that socket was closed and the retry went over TCP.
-		u.cleanPrev = state == "up" && udp == 1
+		// After an exchange answered with one good UDP reply the socket it
+		// used holds nothing: either the reply was read from a clean socket,
+		// or something stale was read first, in which case that socket was
+		// closed and the retry went over TCP.  A burst of concurrent queries
+		// leaves as many pooled sockets, each of which may hold something
+		// stale; that many clean exchanges later they are all clean or gone.
+		if state == "up" && udp == 1 {
+			u.cleanStreak++
+		} else {
+			u.cleanStreak = 0
+		}
 	}
 
 	return true
@@ -636,167 +646,253 @@ func run(s *kernel.Sim, prop, cfg string) {
 			continue
 		}
 
-		// ---- query ----
-		qn++
-		name := fmt.Sprintf("q%d.query.test.", qn)
-		req := &dns.Msg{}
-		req.SetQuestion(name, dns.TypeA)
-		req.Id = uint16(7000 + qn)
-		w := &rw{}
-		serr := h.ServeDNS(ctx, w, req)
+		// ---- queries: one, or a burst of concurrent ones ----
+		nq := 1
+		if t.Chance(1, 6, "burst") {
+			nq = t.Range(2, maxBurst, "burst-size")
+			s.Probe("concurrent-queries")
+		}
+		// Now and then a query too large for the buffer of a datagram
+		// exchange (the resolver quietly takes TCP for it).
+		oversize := t.Chance(1, 6, "oversized-query")
+		// And, rarely, one too large for any buffer: it cannot be forwarded
+		// at all.
+		huge := nq == 1 && t.Chance(1, 20, "huge-query")
+		for _, u := range all {
+			// (Judged like any other query, which takes upstreams that note
+			// the receipt of what they refuse: on TCP they cannot.)
+			if st := u.getState(); st != "up" && st != "dup" {
+				oversize = false
+			}
+		}
+		type asked struct {
+			name string
+			req  *dns.Msg
+			w    *rw
+			serr error
+		}
+		var qs []*asked
+		for k := 0; k < nq; k++ {
+			qn++
+			a := &asked{name: fmt.Sprintf("q%d.query.test.", qn), req: &dns.Msg{}, w: &rw{}}
+			a.req.SetQuestion(a.name, dns.TypeA)
+			a.req.Id = uint16(7000 + qn)
+			if huge {
+				a.req.SetEdns0(4096, false)
+				a.req.IsEdns0().Option = append(a.req.IsEdns0().Option, &dns.EDNS0_PADDING{Padding: make([]byte, 65500)})
+				s.Probe("huge-query")
+			} else if oversize {
+				a.req.SetEdns0(4096, false)
+				a.req.IsEdns0().Option = append(a.req.IsEdns0().Option, &dns.EDNS0_PADDING{Padding: make([]byte, 4200)})
+				s.Probe("oversized-query")
+			}
+			qs = append(qs, a)
+		}
+		if nq == 1 {
+			qs[0].serr = h.ServeDNS(ctx, qs[0].w, qs[0].req)
+		} else {
+			var wg sync.WaitGroup
+			for _, a := range qs {
+				wg.Add(1)
+				go func() {
+					defer wg.Done()
+					a.serr = h.ServeDNS(ctx, a.w, a.req)
+				}()
+			}
+			wg.Wait()
+		}
 
 		// Let the scripted upstreams finish logging what they received.
 		synctest.Wait()
 
-		var gotMains, gotFBs []*upstream
-		for _, m := range mains {
-			if m.received(name) > 0 {
-				gotMains = append(gotMains, m)
-			}
-		}
-		for _, f := range fbs {
-			if f.received(name) > 0 {
-				gotFBs = append(gotFBs, f)
+		if nq > 1 {
+			// Several exchanges per upstream: the retry rule does not apply
+			// to this operation nor, for these upstreams, to the next.
+			for _, u := range all {
+				u.mu.Lock()
+				if len(u.got) > u.seenGot {
+					u.cleanStreak = 0
+				}
+				u.seenGot = len(u.got)
+				u.mu.Unlock()
 			}
 		}
 
-		outcome := "error"
-		if serr == nil && len(w.msgs) == 1 {
-			r := w.msgs[0]
-			outcome = fmt.Sprintf("rcode%d", r.Rcode)
-			if len(r.Answer) == 1 {
-				if a, ok := r.Answer[0].(*dns.A); ok {
-					outcome = fmt.Sprintf("answer-from-%d", a.A.To4()[1])
-				}
+		if huge {
+			a := qs[0]
+			got := 0
+			for _, u := range all {
+				got += u.received(a.name)
 			}
-			if len(r.Question) != 1 || !strings.EqualFold(r.Question[0].Name, name) || r.Question[0].Qtype != dns.TypeA || r.Id != req.Id {
-				s.Failf(prop+"/accepted-mismatch", "a reply with another ID or question was passed to the client",
-					"query %s id %d: got id %d question %v", name, req.Id, r.Id, r.Question)
+			s.Logf("op %d t=%v huge query %s -> err=%v, %d responses, received by %d upstreams", i, time.Since(baseTime()), a.name, a.serr, len(a.w.msgs), got)
+			if a.serr == nil || len(a.w.msgs) != 0 || got != 0 {
+				s.Failf(prop+"/huge-query", "a query too large to be forwarded was not refused with an error",
+					"%s: err=%v, %d responses, received by %d upstreams", a.name, a.serr, len(a.w.msgs), got)
 
 				return
 			}
-		} else if serr == nil {
-			outcome = fmt.Sprintf("%d responses", len(w.msgs))
-		}
-		s.Logf("op %d t=%v query %s %v -> mains=%v fallbacks=%v outcome=%s err=%v", i, time.Since(baseTime()), name, desc, gotMains, gotFBs, outcome, serr)
-
-		if !judgeRetries(s, all) {
-			return
-		}
-
-		nActive := 0
-		for _, m := range mains {
-			if active[m] {
-				nActive++
-			}
-		}
-
-		if len(gotMains) > 1 {
-			s.Failf("C17/two-mains", "one query was sent to two main upstreams", "%v", gotMains)
-
-			return
-		}
-		for _, m := range gotMains {
-			if !active[m] {
-				s.Failf("C17/inactive-main-used", "query sent to a main upstream that is out of rotation",
-					"%s (state %s), failed probe %v ago, backoff %v", m, m.getState(), now.Sub(failedLo[m]), backoff)
-
-				return
-			}
-		}
-		if len(gotFBs) > 1 {
-			s.Failf("C17/two-fallbacks", "one query was tried on more than one fallback", "%v", gotFBs)
-
-			return
-		}
-
-		expectFB := func(why string) {
-			if nFB == 0 {
-				if outcome != "error" {
-					s.Failf("C17/no-fallback-answer", "client got an answer although the main failed and no fallback exists ("+why+")", "%s", outcome)
-				}
-
-				return
-			}
-			if len(gotFBs) != 1 {
-				s.Failf("C17/fallback-not-tried", "query was not tried on a fallback ("+why+")",
-					"query %s: fallbacks that received it: %v, outcome %s", name, gotFBs, outcome)
-
-				return
-			}
-			f := gotFBs[0]
-			s.Probe("fallback-used")
-			switch classOf(f.getState()) {
-			case "valid":
-				if outcome != fmt.Sprintf("answer-from-%d", 100+f.idx) {
-					s.Failf("C17/fallback-answer-lost", "fallback replied but the client did not get its answer ("+why+")",
-						"fallback %s state %s, outcome %s", f, f.getState(), outcome)
-				}
-			case "valid-rcode", "valid-empty":
-				want := map[string]string{"servfail": "rcode2", "nxdomain": "rcode3", "ancount": "rcode0"}[f.getState()]
-				if outcome != want {
-					s.Failf("C17/fallback-answer-lost", "fallback replied but the client did not get its answer ("+why+")",
-						"fallback %s state %s, outcome %s", f, f.getState(), outcome)
-				}
-			default:
-				if outcome != "error" {
-					s.Failf(prop+"/bad-reply-accepted", "client got an answer although main and fallback both failed",
-						"fallback %s state %s, outcome %s", f, f.getState(), outcome)
-				}
-			}
-		}
-
-		if nActive == 0 {
-			if len(gotMains) != 0 {
-				return
-			}
-			s.Probe("no-main-active")
-			expectFB("no main upstream healthy")
 
 			continue
 		}
 
-		if len(gotMains) != 1 {
-			s.Failf("C17/main-not-tried", "query was not sent to an active main upstream",
-				"active mains %d, received by %v", nActive, gotMains)
-
-			return
-		}
-
-		m := gotMains[0]
-		switch classOf(m.getState()) {
-		case "valid":
-			if outcome != fmt.Sprintf("answer-from-%d", m.idx) || len(gotFBs) != 0 {
-				s.Failf("C17/main-answer-lost", "main upstream replied but the client did not get its answer",
-					"main %s state %s: outcome %s, fallbacks tried %v", m, m.getState(), outcome, gotFBs)
-
-				return
-			}
-			s.Probe("main-answered")
-		case "valid-rcode", "valid-empty":
-			want := map[string]string{"servfail": "rcode2", "nxdomain": "rcode3", "ancount": "rcode0"}[m.getState()]
-			if outcome != want || len(gotFBs) != 0 {
-				s.Failf("C17/main-answer-lost", "main upstream replied but the client did not get its answer",
-					"main %s state %s: outcome %s, fallbacks tried %v", m, m.getState(), outcome, gotFBs)
-
-				return
-			}
-		case "netfail":
-			s.Fault("main-" + m.getState())
-			expectFB("main failed with a network error")
-		default:
-			s.Fault("main-reply-" + m.getState())
-			// The reply must not be accepted: SERVFAIL, or a fallback's answer.
-			ok := outcome == "error"
-			for _, f := range gotFBs {
-				if outcome == fmt.Sprintf("answer-from-%d", 100+f.idx) {
-					ok = true
+		judgeQuery := func(name string, req *dns.Msg, w *rw, serr error, burst bool) bool {
+			var gotMains, gotFBs []*upstream
+			for _, m := range mains {
+				if m.received(name) > 0 {
+					gotMains = append(gotMains, m)
 				}
 			}
-			if !ok {
-				s.Failf(prop+"/bad-reply-accepted", "an upstream reply that does not match the query (or does not decode from its own bytes) was accepted",
-					"main %s state %s: outcome %s", m, m.getState(), outcome)
+			for _, f := range fbs {
+				if f.received(name) > 0 {
+					gotFBs = append(gotFBs, f)
+				}
+			}
 
+			outcome := "error"
+			if serr == nil && len(w.msgs) == 1 {
+				r := w.msgs[0]
+				outcome = fmt.Sprintf("rcode%d", r.Rcode)
+				if len(r.Answer) == 1 {
+					if a, ok := r.Answer[0].(*dns.A); ok {
+						outcome = fmt.Sprintf("answer-from-%d", a.A.To4()[1])
+					}
+				}
+				if len(r.Question) != 1 || !strings.EqualFold(r.Question[0].Name, name) || r.Question[0].Qtype != dns.TypeA || r.Id != req.Id {
+					s.Failf(prop+"/accepted-mismatch", "a reply with another ID or question was passed to the client",
+						"query %s id %d: got id %d question %v", name, req.Id, r.Id, r.Question)
+
+					return false
+				}
+			} else if serr == nil {
+				outcome = fmt.Sprintf("%d responses", len(w.msgs))
+			}
+			s.Logf("op %d t=%v query %s %v -> mains=%v fallbacks=%v outcome=%s err=%v", i, time.Since(baseTime()), name, desc, gotMains, gotFBs, outcome, serr)
+
+			if !burst && !judgeRetries(s, all) {
+				return false
+			}
+
+			nActive := 0
+			for _, m := range mains {
+				if active[m] {
+					nActive++
+				}
+			}
+
+			if len(gotMains) > 1 {
+				s.Failf("C17/two-mains", "one query was sent to two main upstreams", "%v", gotMains)
+
+				return false
+			}
+			for _, m := range gotMains {
+				if !active[m] {
+					s.Failf("C17/inactive-main-used", "query sent to a main upstream that is out of rotation",
+						"%s (state %s), failed probe %v ago, backoff %v", m, m.getState(), now.Sub(failedLo[m]), backoff)
+
+					return false
+				}
+			}
+			if len(gotFBs) > 1 {
+				s.Failf("C17/two-fallbacks", "one query was tried on more than one fallback", "%v", gotFBs)
+
+				return false
+			}
+
+			expectFB := func(why string) {
+				if nFB == 0 {
+					if outcome != "error" {
+						s.Failf("C17/no-fallback-answer", "client got an answer although the main failed and no fallback exists ("+why+")", "%s", outcome)
+					}
+
+					return
+				}
+				if len(gotFBs) != 1 {
+					s.Failf("C17/fallback-not-tried", "query was not tried on a fallback ("+why+")",
+						"query %s: fallbacks that received it: %v, outcome %s", name, gotFBs, outcome)
+
+					return
+				}
+				f := gotFBs[0]
+				s.Probe("fallback-used")
+				switch classOf(f.getState()) {
+				case "valid":
+					if outcome != fmt.Sprintf("answer-from-%d", 100+f.idx) {
+						s.Failf("C17/fallback-answer-lost", "fallback replied but the client did not get its answer ("+why+")",
+							"fallback %s state %s, outcome %s", f, f.getState(), outcome)
+					}
+				case "valid-rcode", "valid-empty":
+					want := map[string]string{"servfail": "rcode2", "nxdomain": "rcode3", "ancount": "rcode0"}[f.getState()]
+					if outcome != want {
+						s.Failf("C17/fallback-answer-lost", "fallback replied but the client did not get its answer ("+why+")",
+							"fallback %s state %s, outcome %s", f, f.getState(), outcome)
+					}
+				default:
+					if outcome != "error" {
+						s.Failf(prop+"/bad-reply-accepted", "client got an answer although main and fallback both failed",
+							"fallback %s state %s, outcome %s", f, f.getState(), outcome)
+					}
+				}
+			}
+
+			if nActive == 0 {
+				if len(gotMains) != 0 {
+					return false
+				}
+				s.Probe("no-main-active")
+				expectFB("no main upstream healthy")
+
+				return true
+			}
+
+			if len(gotMains) != 1 {
+				s.Failf("C17/main-not-tried", "query was not sent to an active main upstream",
+					"active mains %d, received by %v", nActive, gotMains)
+
+				return false
+			}
+
+			m := gotMains[0]
+			switch classOf(m.getState()) {
+			case "valid":
+				if outcome != fmt.Sprintf("answer-from-%d", m.idx) || len(gotFBs) != 0 {
+					s.Failf("C17/main-answer-lost", "main upstream replied but the client did not get its answer",
+						"main %s state %s: outcome %s, fallbacks tried %v", m, m.getState(), outcome, gotFBs)
+
+					return false
+				}
+				s.Probe("main-answered")
+			case "valid-rcode", "valid-empty":
+				want := map[string]string{"servfail": "rcode2", "nxdomain": "rcode3", "ancount": "rcode0"}[m.getState()]
+				if outcome != want || len(gotFBs) != 0 {
+					s.Failf("C17/main-answer-lost", "main upstream replied but the client did not get its answer",
+						"main %s state %s: outcome %s, fallbacks tried %v", m, m.getState(), outcome, gotFBs)
+
+					return false
+				}
+			case "netfail":
+				s.Fault("main-" + m.getState())
+				expectFB("main failed with a network error")
+			default:
+				s.Fault("main-reply-" + m.getState())
+				// The reply must not be accepted: SERVFAIL, or a fallback's answer.
+				ok := outcome == "error"
+				for _, f := range gotFBs {
+					if outcome == fmt.Sprintf("answer-from-%d", 100+f.idx) {
+						ok = true
+					}
+				}
+				if !ok {
+					s.Failf(prop+"/bad-reply-accepted", "an upstream reply that does not match the query (or does not decode from its own bytes) was accepted",
+						"main %s state %s: outcome %s", m, m.getState(), outcome)
+
+					return false
+				}
+			}
+
+			return true
+		}
+		for _, a := range qs {
+			if !judgeQuery(a.name, a.req, a.w, a.serr, nq > 1) {
 				return
 			}
 		}
